@@ -195,6 +195,11 @@ class VecInterp(SE.Interp):
     def ext_call(self, fp, args):
         if fp.endswith("iter::sources::repeat::repeat"):
             return ("repeat", args[0])
+        last = fp.rsplit("::", 1)[-1]
+        if last in ("min", "max") and len(args) == 2 and all(isinstance(a, int) and not isinstance(a, bool) for a in args):
+            return min(args) if last == "min" else max(args)
+        if last in ("saturating_sub", "saturating_add") and len(args) == 2 and all(isinstance(a, int) for a in args):
+            return max(0, args[0] - args[1]) if last == "saturating_sub" else args[0] + args[1]
         return super().ext_call(fp, args)
 
     def ext_method(self, name, callee, recv, args):
@@ -241,6 +246,10 @@ class VecInterp(SE.Interp):
             return ("take", recv[1], args[0])
         if name in ("min", "max") and isinstance(recv, int) and isinstance(args[0], int):
             return min(recv, args[0]) if name == "min" else max(recv, args[0])
+        if name in ("saturating_sub", "saturating_add") and isinstance(recv, int) and isinstance(args[0], int):
+            return max(0, recv - args[0]) if name == "saturating_sub" else recv + args[0]
+        if name == "clamp" and isinstance(recv, int) and len(args) == 2 and all(isinstance(a, int) for a in args):
+            return max(args[0], min(recv, args[1]))
         if name == "clone":
             return deep(recv)
         return super().ext_method(name, callee, recv, args)
